@@ -46,47 +46,106 @@ def spell(schema_record: dict, dialect: str) -> Any:
     return _fix_refs(decode_schema(schema_record, dialect), dialect)
 
 
+FORM_MEDIA = ("application/x-www-form-urlencoded", "multipart/form-data")
+PLAIN_SPELL = {"params": "inline", "schemaIn": "schema", "body": "inline"}
+
+
 def build_document(desc: dict) -> tuple[dict, str, str]:
-    """Descriptor (as exported by GenData.tla) -> (raw OpenAPI document, path, method)."""
+    """Descriptor (as exported by GenData.tla) -> (raw OpenAPI document, path, method).
+
+    Besides WHAT the operation declares, the descriptor says how the document spells it (desc.spell, desc.item): parameters inline /
+    behind $ref / on the Path Item, parameter schema under `schema` or `content`, request body inline / behind $ref, form bodies
+    (2.0: formData parameters), Path Item inline / behind $ref with sibling methods."""
     d = desc["dialect"]
     if desc["kind"] == "schema":
         params, bodies = [], [{"media": "application/json", "schema": desc["schema"], "required": True}]
     else:
         params, bodies = desc["params"], desc["bodies"]
+    sp = desc.get("spell") or PLAIN_SPELL
     defs = {k: spell(v, d) for k, v in desc.get("defs", {}).items() if k != "none"}
     path = "/x" + "".join("/{%s}" % uncps(p["name"]) for p in params if p["loc"] == "path")
     plist: list[dict] = []
     for p in params:
         sch = spell(p["schema"], d)
         base = {"name": uncps(p["name"]), "in": p["loc"], "required": bool(p["required"])}
-        plist.append({**base, **sch} if d == "2.0" else {**base, "schema": sch})
+        if d == "2.0":
+            plist.append({**base, **sch})
+        elif sp["schemaIn"] == "content":
+            plist.append({**base, "content": {"application/json": {"schema": sch}}})
+        else:
+            plist.append({**base, "schema": sch})
     operation: dict = {"responses": {"200": {"description": "ok"}}}
+    body_params: list[dict] = []
     if d == "2.0":
-        if bodies:
-            plist.append({"name": "body", "in": "body", "required": bool(bodies[0]["required"]), "schema": spell(bodies[0]["schema"], d)})
-            operation["consumes"] = [b["media"] for b in bodies]
         raw = {"swagger": "2.0", "info": {"title": "t", "version": "1"}, "paths": {path: {"post": operation}}}
+        if bodies:
+            operation["consumes"] = [b["media"] for b in bodies]
+            b0 = bodies[0]
+            if b0["media"] in FORM_MEDIA:        # a form is a set of formData parameters, one per property
+                props = b0["schema"].get("props", {"k": [], "v": []})
+                req = {uncps(n) for n in b0["schema"].get("required", [])}
+                for n, ps in zip(props["k"], props["v"]):
+                    body_params.append({"name": uncps(n), "in": "formData", "required": uncps(n) in req, **spell(ps, d)})
+            else:
+                body_params.append({"name": "body", "in": "body", "required": bool(b0["required"]), "schema": spell(b0["schema"], d)})
         if defs:
             raw["definitions"] = defs
+        holder, prefix = raw.setdefault("parameters", {}), "#/parameters/"
     else:
-        if bodies:
-            operation["requestBody"] = {"required": all(bool(b["required"]) for b in bodies),
-                                        "content": {b["media"]: {"schema": spell(b["schema"], d)} for b in bodies}}
         raw = {"openapi": "3.0.2" if d == "3.0" else "3.1.0", "info": {"title": "t", "version": "1"}, "paths": {path: {"post": operation}}}
+        components = raw.setdefault("components", {})
+        if bodies:
+            request_body = {"required": all(bool(b["required"]) for b in bodies),
+                            "content": {b["media"]: {"schema": spell(b["schema"], d)} for b in bodies}}
+            if sp["body"] == "ref":
+                components.setdefault("requestBodies", {})["Body"] = request_body
+                request_body = {"$ref": "#/components/requestBodies/Body"}
+            operation["requestBody"] = request_body
         if defs:
-            raw["components"] = {"schemas": defs}
-    if plist:
-        operation["parameters"] = plist
-    item = desc.get("item") or {"ref": False, "also": []}
+            components["schemas"] = defs
+        holder, prefix = components.setdefault("parameters", {}), "#/components/parameters/"
+
+    def place(plist_: list[dict], how: str) -> list[dict]:
+        if how != "ref":
+            return plist_
+        out = []
+        for p in plist_:
+            key = "P%d" % len(holder)
+            holder[key] = p
+            out.append({"$ref": prefix + key})
+        return out
+
     path_item = raw["paths"][path]
+    own = place(body_params, sp["body"] if d == "2.0" else "inline")
+    if sp["params"] == "path":
+        if plist:
+            path_item["parameters"] = plist
+    else:
+        own = place(plist, sp["params"]) + own
+    if own:
+        operation["parameters"] = own
+    if not holder:
+        (raw if d == "2.0" else raw["components"]).pop("parameters", None)
+    if d != "2.0" and not raw["components"]:
+        del raw["components"]
+    item = desc.get("item") or {"ref": False, "also": []}
     for m in item["also"]:          # other methods documented on the same path
         path_item[m] = {"responses": {"200": {"description": "ok"}}}
-        if any(p["in"] == "path" for p in plist):
+        if any(p["in"] == "path" for p in plist) and sp["params"] != "path":
             path_item[m]["parameters"] = [p for p in plist if p["in"] == "path"]
     if item["ref"]:                 # the Path Item is given by a local reference
         raw["x-path-items"] = {"Item": path_item}
         raw["paths"][path] = {"$ref": "#/x-path-items/Item"}
     return raw, path, "POST"
+
+
+def _deref(raw: dict, obj: Any) -> Any:
+    from .encode import _resolve_pointer
+
+    for _ in range(4):
+        if isinstance(obj, dict) and isinstance(obj.get("$ref"), str) and obj["$ref"].startswith("#/"):
+            obj = _resolve_pointer(raw, obj["$ref"])
+    return obj
 
 
 def path_item_of(raw: dict, path: str) -> dict:
@@ -100,19 +159,39 @@ def path_item_of(raw: dict, path: str) -> dict:
 
 
 def declared_op(raw: dict, path: str, desc: dict) -> dict:
-    """The operation as the DOCUMENT declares it, encoded for the oracle (schemas re-read from the raw document)."""
+    """The operation as the DOCUMENT declares it, encoded for the oracle: everything is re-read from the raw document with the
+    standard's meaning (Path Item / Parameter / Request Body references resolved, path-level parameters shared, `content`
+    parameters, formData parameters = one object body)."""
     d = desc["dialect"]
     path_item = path_item_of(raw, path)
     operation = path_item["post"]
-    params, bodies, encs = [], [], []
-    for p in operation.get("parameters", []):
+    params, bodies, encs, form = [], [], [], []
+    declared = [_deref(raw, p) for p in path_item.get("parameters", [])]
+    own = [_deref(raw, p) for p in operation.get("parameters", [])]
+    declared = [p for p in declared if not any(o["name"] == p["name"] and o["in"] == p["in"] for o in own)] + own
+    consumes = operation.get("consumes") or raw.get("consumes")
+    for p in declared:
         if p["in"] == "body":
-            for m in operation.get("consumes", ["application/json"]):
+            for m in consumes or ["application/json"]:
                 bodies.append({"media": m, "schema": p["schema"], "required": bool(p.get("required", False))})
             continue
-        sch = p["schema"] if d != "2.0" else {k: v for k, v in p.items() if k not in _PARAM_META}
+        if p["in"] == "formData":
+            form.append(p)
+            continue
+        if d == "2.0":
+            sch = {k: v for k, v in p.items() if k not in _PARAM_META}
+        elif "schema" in p:
+            sch = p["schema"]
+        else:
+            sch = next(iter(p["content"].values())).get("schema", {})
         params.append({"loc": p["in"], "name": cps(p["name"]), "required": bool(p.get("required", False)), "schema": sch})
-    rb = operation.get("requestBody")
+    if form:
+        sch = {"type": "object", "properties": {p["name"]: {k: v for k, v in p.items() if k not in _PARAM_META} for p in form}}
+        if any(p.get("required") for p in form):
+            sch["required"] = [p["name"] for p in form if p.get("required")]
+        for m in consumes or ["multipart/form-data"]:
+            bodies.append({"media": m, "schema": sch, "required": True})
+    rb = _deref(raw, operation.get("requestBody"))
     if rb:
         for m, mt in rb["content"].items():
             bodies.append({"media": m, "schema": mt.get("schema", {}), "required": bool(rb.get("required", False))})
@@ -228,12 +307,21 @@ def observe_history(desc: dict) -> list[dict]:
     return [observe(op, modesets=(("positive", "negative"), ("positive",))) for op in desc["ops"]]
 
 
+def pmap(fn, items: list) -> list:
+    """common.pmap; under tools/cov_audit.sh (coverage.py does not record what forked pool workers execute) serially in this process."""
+    if os.environ.get("COVERAGE_RCFILE"):
+        return [fn(x) for x in items]
+    return common.pmap(fn, items)
+
+
 def fresh_pmap(fn, items: list) -> list:
     """Like common.pmap, but every item runs in a process of its own (forked from this one, which has generated nothing)."""
     import multiprocessing as mp
 
     if not items:
         return []
+    if os.environ.get("COVERAGE_RCFILE"):
+        return [fn(x) for x in items]
     with mp.get_context("fork").Pool(common.NPROC, maxtasksperchild=1) as pool:
         return pool.map(fn, items, chunksize=1)
 
@@ -484,7 +572,7 @@ def run(ctx: Ctx) -> Outcome:
     _spec_violations("C03", res_h, out)
     descs = descs_s + descs_o
     t1 = time.time()
-    results = common.pmap(observe, descs)
+    results = pmap(observe, descs)
     for hd, hr in zip(descs_h, fresh_pmap(observe_history, descs_h)):       # histories: one fresh process each
         for k, (od, r) in enumerate(zip(hd["ops"], hr)):
             descs.append(dict(od, history=[_short(o)[:160] for o in hd["ops"][:k]], hist_desc=hd))
